@@ -1246,6 +1246,34 @@ package router
 //@   callsite ReadFrom?: [C01:request-body-read-through-the-64k-limit] arg1 == gLR && gN == 65535
 //@   callsite LimitReader?: [C01:bounded-body] arg0 == req.Body
 //@   callsite GetBuf?: [C01:bounded-decode-buffer] arg0 <= 65535
+// which bytes become the query: GET - the base64url text of the "dns" parameter of this request's query string,
+// decoded into this call's own buffer; POST - this request's body; the message decoded from exactly those bytes is
+// what is returned; a request that yields no query gets exactly one status line (501 for an unknown method, 400
+// otherwise) and one that does gets none here
+//@   ghost gS string = ""
+//@   ghost gSB []byte = nil
+//@   ghost gBuf pool.Buffer = nil
+//@   ghost gBody []byte = nil
+//@   ghost gM *dnsmsg.Msg = nil
+//@   ghost gUErr error = nil
+//@   ghost nHdr int = 0
+//@   ghost gCode int = 0
+//@   ghost nUnpack int = 0
+//@   aftercall getDnsKey?: gS = ret0
+//@   aftercall Str2BytesUnsafe?: gSB = ret0
+//@   aftercall GetBuf?: gBuf = ret0
+//@   aftercall Bytes?: gBody = ret0
+//@   oncall UnpackMsg?: nUnpack = nUnpack + 1
+//@   aftercall UnpackMsg?: gM = ret0
+//@   aftercall UnpackMsg?: gUErr = ret1
+//@   oncall WriteHeader?: nHdr = nHdr + 1
+//@   oncall WriteHeader?: gCode = arg1
+//@   callsite getDnsKey?: [C03:dns-parameter-of-this-request] req.Method == "GET" && arg0 == req.URL.RawQuery
+//@   callsite Str2BytesUnsafe?: [C03:the-parameter-text] arg0 == gS
+//@   callsite Decode?: [C03:base64url-text-decoded-into-its-own-buffer] arg1 == gBuf && arg2 == gSB
+//@   callsite UnpackMsg?: [C03:query-decoded-from-exactly-those-bytes] nUnpack == 0 && (req.Method == "GET" ? arg0 == gBuf : req.Method == "POST" && arg0 == gBody)
+//@   ensures [C03:the-decoded-query-is-returned] m != nil ==> nUnpack == 1 && m == gM && gUErr == nil && nHdr == 0
+//@   ensures [C03:no-query-exactly-one-status] m == nil ==> nHdr == 1 && (req.Method != "GET" && req.Method != "POST" ? gCode == 501 : gCode == 400)
 
 // ServeHTTP: a request refused by the limiter gets status 503 and nothing else: its body is not read, no query
 // is decoded or handled, nothing is forwarded. An admitted request is handled at most once and gets at most one
